@@ -102,7 +102,7 @@ def st_event(draw):
         # a big event (contact list / relay list sized): hundreds of index entries in one write
         n = draw(st.sampled_from([40, 300, 600]))
         tags = tags + [["p", "%064x" % i] for i in range(n)]
-    ts = draw(st.sampled_from([E.T0 - 2, E.T0 - 1, E.T0, E.T0 + 1, 1, 2**32 - 1, 2**32]))
+    ts = draw(st.sampled_from([E.T0 - 2, E.T0 - 1, E.T0, E.T0 + 1, 1, 0, 2**32 - 1, 2**32]))
     return E.free(draw(st.sampled_from(IDS)), draw(st.sampled_from(PUBS)), kind, ts, tags,
                   draw(st.sampled_from(["", "c"])))
 
